@@ -38,7 +38,7 @@ enum Outcome {
 	None,
 }
 
-async fn ws_exchange(world: &mut World, label: &str, msgs: Vec<Vec<u8>>) -> (Vec<Vec<u8>>, bool) {
+async fn ws_exchange(world: &mut World, label: &str, msgs: Vec<Vec<u8>>, clog: bool) -> (Vec<Vec<u8>>, bool) {
 	let (end, _ctl) = world.connect(label);
 	let frames: Arc<Mutex<Vec<Vec<u8>>>> = Arc::default();
 	let (mut tx, mut rx) = match world::ws_handshake(end).await {
@@ -46,13 +46,29 @@ async fn ws_exchange(world: &mut World, label: &str, msgs: Vec<Vec<u8>>) -> (Vec
 		_ => return (vec![], false),
 	};
 	let f2 = frames.clone();
+	// clog: the peer does not read until it has sent everything, so the server's write path fills up
+	let hold = Arc::new(std::sync::atomic::AtomicBool::new(clog));
+	let h2 = hold.clone();
 	let reader = rt::spawn("ws-reader", async move {
+		while h2.load(std::sync::atomic::Ordering::Relaxed) {
+			tokio::time::sleep(Duration::from_millis(2)).await;
+		}
 		while let Some(f) = world::ws_recv(&mut rx).await {
 			rt::event("ws-frame", format!("{} bytes: {}", f.len(), String::from_utf8_lossy(&f).chars().take(160).collect::<String>()));
 			f2.lock().unwrap().push(f);
 		}
 	});
 	let mut alive = true;
+	if clog {
+		// the peer starts reading only once everything is stuck (virtual time advances only when nothing can run)
+		let h3 = hold.clone();
+		rt::spawn("clog-release", async move {
+			tokio::time::sleep(Duration::from_millis(30)).await;
+			rt::event("peer-starts-reading", "");
+			rt::probe("clogged_then_released");
+			h3.store(false, std::sync::atomic::Ordering::Relaxed);
+		});
+	}
 	for m in &msgs {
 		rt::yield_n(rt::draw("think", 3)).await;
 		rt::event("ws-send", format!("{} bytes: {}", m.len(), String::from_utf8_lossy(m).chars().take(120).collect::<String>()));
@@ -95,7 +111,9 @@ pub async fn scenario_c07() {
 		resp_b = GRID[(GRID.iter().position(|g| *g == resp_a).unwrap() + 1 + rt::draw("resp_shift", 5) as usize) % GRID.len()];
 	}
 	let entry = *rt::pick("entry", &[Entry::Tower, Entry::LowLevel]);
-	let frag = if rt::chance("frag", 1, 3) { Frag { short: true, latency_ms: 2, cap: 0 } } else { Frag::default() };
+	let clog = rt::chance("clog", 1, 4);
+	let frag = if clog { Frag { short: false, latency_ms: 0, cap: 64 } } else if rt::chance("frag", 1, 3) { Frag { short: true, latency_ms: 2, cap: 0 } } else { Frag::default() };
+	let req_limit = if clog { req_limit.min(1000) } else { req_limit };
 	// sizes around the limit
 	let l = req_limit as usize;
 	let mut sizes: Vec<usize> = Vec::new();
@@ -105,7 +123,7 @@ pub async fn scenario_c07() {
 			1 | 2 => l,
 			3 | 4 => l + 1,
 			5 => 2 * l,
-			6 => (10 * l).min(700_000),
+			6 if !clog => (10 * l).min(700_000),
 			_ => 60,
 		});
 	}
@@ -114,11 +132,11 @@ pub async fn scenario_c07() {
 	let mut per_world: Vec<Vec<(Outcome, Outcome)>> = Vec::new();
 	let mut nontrivial = false;
 	for (wi, resp) in [resp_a, resp_b].into_iter().enumerate() {
-		let mut world = World::new(SrvCfg { entry, frag, max_req: req_limit, max_resp: resp, ..Default::default() });
+		let mut world = World::new(SrvCfg { entry, frag, max_req: req_limit, max_resp: resp, buf_cap: if clog { 1 } else { 1024 }, ..Default::default() });
 		// --- WebSocket: everything pipelined on one connection, then a sentinel ---
 		let mut list: Vec<Vec<u8>> = msgs.iter().map(|m| m.1.clone()).collect();
 		list.push(len_call(999, 60));
-		let (frames, alive) = ws_exchange(&mut world, &format!("w{wi}"), list).await;
+		let (frames, alive) = ws_exchange(&mut world, &format!("w{wi}"), list, clog).await;
 		// --- HTTP: one POST each, three body framings ---
 		let mut outs = Vec::new();
 		for (id, m) in &msgs {
@@ -260,9 +278,23 @@ pub async fn scenario_c08() {
 		let delta = rt::draw("bdelta", 7) as i64 - 3;
 		let total_target = (l as i64 + delta) as usize; // = 2 + sum + (n-1)
 		let mut remaining = total_target.saturating_sub(2 + (n_entries - 1));
+		// optionally one invalid entry (answered -32600) at a drawn position: its reply has a fixed, known length
+		let invalid_at = if n_entries >= 2 && rt::chance("invalid_entry", 1, 3) { Some(rt::draw("invalid_pos", n_entries as u32) as usize) } else { None };
 		for i in 0..n_entries {
 			let id = 100 + i as u64;
-			let share = if i + 1 == n_entries { remaining } else { (remaining / (n_entries - i)).max(40) };
+			if invalid_at == Some(i) {
+				let (text, reply) = if rt::chance("invalid_kind", 1, 2) {
+					("1".to_string(), "{\"jsonrpc\":\"2.0\",\"id\":null,\"error\":{\"code\":-32600,\"message\":\"Invalid request\"}}".to_string())
+				} else {
+					(format!("{{\"jsonrpc\":\"2.0\",\"id\":{id}}}"), format!("{{\"jsonrpc\":\"2.0\",\"id\":{id},\"error\":{{\"code\":-32600,\"message\":\"Invalid request\"}}}}"))
+				};
+				remaining = remaining.saturating_sub(reply.len());
+				entries.push((id, text.into_bytes(), reply.len()));
+				continue;
+			}
+			let left = n_entries - i - if invalid_at.is_some_and(|p| p > i) { 1 } else { 0 };
+			let reserve = if invalid_at.is_some_and(|p| p > i) { 80 } else { 0 };
+			let share = if left <= 1 { remaining.saturating_sub(reserve) } else { (remaining.saturating_sub(reserve) / left).max(40) };
 			let (m, len, _) = blob_call(id, share.max(response_len(id, "\"\"")), 0);
 			remaining = remaining.saturating_sub(len);
 			entries.push((id, m, len));
@@ -278,7 +310,7 @@ pub async fn scenario_c08() {
 		let mut list: Vec<Vec<u8>> = singles.iter().map(|s| s.1.clone()).collect();
 		list.push(batch_text.clone().into_bytes());
 		list.push(len_call(999, 60));
-		let (frames, _alive) = ws_exchange(&mut world, &format!("w{wi}"), list).await;
+		let (frames, _alive) = ws_exchange(&mut world, &format!("w{wi}"), list, false).await;
 		let http_batch = world::collect_response(world.tower_call(world::post_request(batch_text.clone().into_bytes())).await).await;
 		let mut http_singles = Vec::new();
 		for s in &singles {
